@@ -261,6 +261,9 @@ pub struct Execution<O> {
 
 pub type Program<O> = Box<dyn FnOnce(&Arc<Sched>, usize) -> O + Send>;
 
+/// Seconds without any scheduling point after which an execution is declared stuck in a real lock.
+pub const WATCHDOG_S: f64 = 30.0;
+
 /// Run one execution: `programs[i]` is the body of managed thread i.
 pub fn run<O: Send + 'static>(programs: Vec<Program<O>>, prefix: &[usize], max_points: usize, probe: Option<ProbeFn>) -> Execution<O> {
 	let n = programs.len();
@@ -336,9 +339,42 @@ pub fn run<O: Send + 'static>(programs: Vec<Program<O>>, prefix: &[usize], max_p
 		let mut st = sched.st.lock().unwrap();
 		sched.decide(&mut st, None, "start");
 	}
+	// Watchdog: every wait inside the scheduler is a condition-variable wait that some other
+	// managed thread ends. If no scheduling point is reached for a long time while threads are
+	// unfinished, a managed thread is blocked OUTSIDE the scheduler, i.e. in a real lock of the
+	// code under test that no modelled acquisition covers: a genuine lock cycle (or a modelling
+	// gap - either way it must be looked at, not waited on for ever).
+	let mut stuck = false;
+	{
+		let mut last = (0usize, std::time::Instant::now());
+		loop {
+			if handles.iter().all(|h| h.is_finished()) {
+				break;
+			}
+			std::thread::sleep(std::time::Duration::from_millis(2));
+			let npoints = sched.st.lock().unwrap().points.len();
+			if npoints != last.0 {
+				last = (npoints, std::time::Instant::now());
+			} else if last.1.elapsed().as_secs_f64() > WATCHDOG_S {
+				let mut st = sched.st.lock().unwrap();
+				let states: Vec<String> = st.threads.iter().enumerate().map(|(i, t)| format!("t{i}@{}({:?})", t.point, t.state)).collect();
+				st.failure = Some(format!("real-deadlock: no scheduling point reached for {WATCHDOG_S} s; a managed thread is blocked in a lock outside the scheduler; thread states: {}", states.join(", ")));
+				st.aborting = true;
+				sched.cv.notify_all();
+				stuck = true;
+				break;
+			}
+		}
+	}
 	let mut outputs = vec![];
 	let mut panics = vec![];
 	for h in handles {
+		if stuck && !h.is_finished() {
+			// leave the blocked thread behind (it can never be joined)
+			outputs.push(None);
+			panics.push(None);
+			continue;
+		}
 		match h.join() {
 			Ok((o, p)) => {
 				outputs.push(o);
